@@ -7,6 +7,7 @@ REPO = os.environ.get("VERIF_REPO", "/repo")
 env = dict(os.environ); env.update({"GOFLAGS": "-mod=mod", "GOPROXY": "off"}); env.pop("GOTOOLCHAIN", None); env.pop("GOSUMDB", None)
 tool = os.path.join(ROOT, "tools", "go2coq", "go2coq")
 rc = 0
+os.makedirs(os.path.join(ROOT, "coq", "gen"), exist_ok=True)
 for sp in sorted(glob.glob(os.path.join(ROOT, "spec", "C*.json"))):
     spec = json.load(open(sp))
     for it in spec.get("translate", []):
